@@ -44,8 +44,13 @@ def shards(tier):
 def cases(ctx):
     rng = ctx.rng
     for i in range(ctx.shard["n"]):
-        c = gen.cube_case(rng, min_dims=0, max_dims=3, max_axes=2, multi_axis_prob=0.12, max_extra=3,
-                          n=gen.pick(rng, [1, 2, 3, 6, 12, 40]), allow_outside_common=False, explicit_shape=True)
+        if i % 33 == 5:
+            # cells with 256+ rows (per-cell counters on a narrow-integer boundary)
+            c = gen.cube_case(rng, min_dims=0, max_dims=1, max_axes=1, max_extent=2,
+                              n=gen.pick(rng, [256, 257, 300, 513]), allow_outside_common=False, explicit_shape=True)
+        else:
+            c = gen.cube_case(rng, min_dims=0, max_dims=3, max_axes=2, multi_axis_prob=0.12, max_extra=3,
+                              n=gen.pick(rng, [1, 2, 3, 6, 12, 40]), allow_outside_common=False, explicit_shape=True)
         c["n"] = c["dense"][0].shape[0] if c["dense"] else gen.pick(rng, [1, 2, 3, 6, 12])
         c["agg"] = gen.pick(rng, aggr.XONLY)
         c.update(aggr.xonly_inputs(rng, c["n"], c["agg"]))
